@@ -9,6 +9,7 @@ import (
 
 	"github.com/libp2p/go-libp2p/core/event"
 	"github.com/libp2p/go-libp2p/core/network"
+	"github.com/libp2p/go-libp2p/core/protocol"
 	"google.golang.org/protobuf/proto"
 
 	"github.com/libp2p/go-libp2p-kad-dht/internal/vmc"
@@ -24,6 +25,7 @@ type c13cfg struct {
 	mode    ModeOpt
 	race    string
 	dialled bool // the requesting peer's connection was dialled by the node (inbound stream on an outbound connection)
+	second  bool // the node serves a second (older) protocol id as well; inbound streams are opened on both
 }
 
 func c13Configs(tier string) []vmc.Cfg {
@@ -32,6 +34,7 @@ func c13Configs(tier string) []vmc.Cfg {
 	for _, m := range []ModeOpt{ModeAuto, ModeClient, ModeServer, ModeAutoServer} {
 		out = append(out, vmc.Cfg{Name: "hist/" + names[m], Data: c13cfg{part: "hist", mode: m}})
 		out = append(out, vmc.Cfg{Name: "hist/" + names[m] + "/dialled-conn", Data: c13cfg{part: "hist", mode: m, dialled: true}})
+		out = append(out, vmc.Cfg{Name: "hist/" + names[m] + "/two-server-protocols", Data: c13cfg{part: "hist", mode: m, second: true}})
 	}
 	b := 3
 	if tier == "thorough" {
@@ -89,6 +92,14 @@ func c13Run(x *vmc.X, cfg vmc.Cfg) {
 		return
 	}
 	defer l.close()
+	const c13Proto2 = protocol.ID("/sim/kad/0.9.0")
+	if c.second {
+		// (in-package: the option that adds older protocol ids is not exported for custom prefixes)
+		l.d.serverProtocols = append(l.d.serverProtocols, c13Proto2)
+		if l.d.getMode() == modeServer {
+			l.h.SetStreamHandler(c13Proto2, l.d.handleNewStream)
+		}
+	}
 	a, b := kid.Peer("000", 1), kid.Peer("111", 1)
 	var connA *sim.Conn
 	if c.dialled {
@@ -98,6 +109,10 @@ func c13Run(x *vmc.X, cfg vmc.Cfg) {
 	check := func(where string, want mode) bool {
 		got := l.d.getMode()
 		reg := l.h.Handler(c09Proto) != nil
+		if c.second && reg != (l.h.Handler(c13Proto2) != nil) {
+			x.Failf("C13/handler-registration", "%s: the two server protocols are not registered alike (mode %d)", where, got)
+			return false
+		}
 		if got != want {
 			x.Failf("C13/mode", "%s: mode is %d, expected %d (option %d)", where, got, want, c.mode)
 			return false
@@ -140,6 +155,16 @@ func c13Run(x *vmc.X, cfg vmc.Cfg) {
 						return
 					}
 					inbound = append(inbound, s)
+					if c.second {
+						if s2 := l.h.Inbound(a, c13Proto2); s2 != nil {
+							_, _ = s2.Write(findNodeFrame([]byte(a)))
+							synctest.Wait()
+							inbound = append(inbound, s2)
+						} else {
+							x.Failf("C13/server-without-handler", "server mode but no handler for the second server protocol")
+							return
+						}
+					}
 				} else if l.d.getMode() == modeServer {
 					x.Failf("C13/server-without-handler", "server mode but no handler")
 					return
